@@ -63,7 +63,7 @@ def resolve(repo, idents):
         cc = os.path.join(td, "r.cc")
         open(cc, "w").write(prog)
         exe = os.path.join(td, "r")
-        bsrc = os.path.join(os.path.dirname(os.path.abspath(__file__)), "..", ".build", "san", "src")
+        bsrc = build_include_dir(repo, td)
         r = subprocess.run(["g++", "-std=c++17", "-I" + os.path.join(repo, "src"), "-I" + os.path.join(repo, "include"),
                             "-I" + bsrc, cc, "-o", exe], capture_output=True, text=True)
         if r.returncode != 0:
@@ -151,7 +151,7 @@ def resolve_with_headers(repo, idents):
         cc = os.path.join(td, "r.cc")
         open(cc, "w").write(prog)
         exe = os.path.join(td, "r")
-        bsrc = os.path.join(here, "..", ".build", "san", "src")
+        bsrc = build_include_dir(repo, td)
         r = subprocess.run(["g++", "-std=c++17", "-DBOOST_DLL_USE_STD_FS", "-I" + os.path.join(repo, "src"), "-I" + os.path.join(repo, "include"),
                             "-I" + bsrc, cc, "-o", exe], capture_output=True, text=True)
         if r.returncode != 0:
